@@ -7,48 +7,49 @@
 // object builders).
 //
 // Defects found on the unchanged tree (each has a ProbeKnown reproduction):
-//   C19/rhp2-verifytag-ciphertext-multiple-of-16   rhp2 ResponseReader.VerifyTag pads the
-//       MAC input with 32-(clen%16) bytes; for clen%16 == 0 that is 16 bytes too many, so an
-//       unmodified response whose ciphertext length is a multiple of 16 fails authentication
-//       and closes the session (TestKnownVerifyTag; excluded from TestRHP2 while open).
-//   C19/rhp4-free-sectors-response-exceeds-limit-large-contract   a Validate-accepted maximal
-//       free-sectors batch on a 4 TiB contract yields an honest 29 MB response; ReadResponse
-//       allows 20 MiB (TestKnownFreeSectors; outside the generator's stated bound).
-//   C19/gateway-max-weight-block-exceeds-5e6   block weight ignores Merkle proofs, the wire
-//       size does not: a block of weight 1.96 M with 9000 inputs over an accumulator of height
-//       27 is 5.9 MB, more than the 5e6 the gateway RPCs allow per block (TestKnownBlockLimit).
+//
+//	C19/rhp2-verifytag-ciphertext-multiple-of-16   rhp2 ResponseReader.VerifyTag pads the
+//	    MAC input with 32-(clen%16) bytes; for clen%16 == 0 that is 16 bytes too many, so an
+//	    unmodified response whose ciphertext length is a multiple of 16 fails authentication
+//	    and closes the session (TestKnownVerifyTag; excluded from TestRHP2 while open).
+//	C19/rhp4-free-sectors-response-exceeds-limit-large-contract   a Validate-accepted maximal
+//	    free-sectors batch on a 4 TiB contract yields an honest 29 MB response; ReadResponse
+//	    allows 20 MiB (TestKnownFreeSectors; outside the generator's stated bound).
+//	C19/gateway-max-weight-block-exceeds-5e6   block weight ignores Merkle proofs, the wire
+//	    size does not: a block of weight 1.96 M with 9000 inputs over an accumulator of height
+//	    27 is 5.9 MB, more than the 5e6 the gateway RPCs allow per block (TestKnownBlockLimit).
 //
 // Sensitivity: semantic mutants of /repo, `VERIF_SCALE=0.35 ./run C19 quick` through
 // tools/with_mutant.sh on a machine with load average > 100; seconds are build + whole run.
 //
-//   id   file                     mutant                                                        result    s
-//   M01  rhp/v4/encoding.go       ReplenishAccountsRequest.maxLen drops +sizeofSignature        killed  343  (max object: read fails)
-//   M02  rhp/v4/encoding.go       FreeSectorsRequest.maxLen 32*batch -> 4*batch (0.16.1 bug)    killed  164
-//   M03  rhp/v4/transport.go      ReadResponse error branch: d.SetErr(r) removed                killed   40
-//   M04  rhp/v4/transport.go      withDecoder: N: maxLen -> 1<<40 (no limit)                    killed  337  (over-limit object read; hostile stream)
-//   M05  rhp/v2/transport.go      VerifyTag: tag comparison skipped                             killed   52
-//   M06  rhp/v2/transport.go      readMessage: no setErr on AEAD failure                        killed   52  (session not closed)
-//   M07  gateway/transport.go     validateHeader: unique-ID check removed                       killed  103
-//   M08  gateway/transport.go     validateHeader: genesis check removed                         killed   55
-//   M09  rhp/v4/validation.go     FundAccounts: len > Max -> len >= Max                         killed   56  (max batch rejected)
-//   M10  rhp/v4/validation.go     AppendSectors: > Max -> > Max+1                               killed   61  (batch+1 accepted)
-//   M11  rhp/v3/transport.go      readObject: maxLen += minMessageSize removed                  killed   45
-//   M12  rhp/v2/transport.go      NewRenterTransport: host signature not verified               killed   50
-//   M13  gateway/encoding.go      SendHeaders.maxResponseLen 80 -> 48 bytes per header          killed   61
-//   M14  rhp/v4/transport.go      ReadResponse limit: RPCError.maxLen()+o.maxLen() -> o.maxLen() killed   36
-//   M15  rhp/v2/transport.go      RawResponse: msgSize > maxLen check removed                   killed   56
-//   M16  rhp/v2/transport.go      readMessage: msgSize > maxLen -> > maxLen+1                   survived     equivalent: LimitedReader(8+maxLen) still refuses the extra byte
-//   M17  rhp/v4/encoding.go       AttachPoolsRequest.maxLen drops the 8-byte slice prefix       killed  102
-//   M18  gateway/encoding.go      SendV2Blocks.maxRequestLen drops the Max field                killed  102
-//   M20  rhp/v4/transport.go      WriteResponse never sets the error flag                       killed   22
-//   M21  rhp/v4/validation.go     FreeSectors: > Max -> >= Max                                  killed   34
-//   M22  rhp/v4/validation.go     ReplenishAccounts: > Max -> > 2*Max                           killed   36
-//   M23  rhp/v4/encoding.go       SectorRootsResponse encodes Roots before Proof                killed   37
-//   M24  rhp/v2/transport.go      RawResponse counts the tag as message body                    killed   43  (exact deadlock detection; timed out before it existed)
-//   M25  gateway/encoding.go      SendTransactions.maxRequestLen 100 -> 99 hashes               killed   54
-//   M26  rhp/v3/transport.go      readSub never cleared                                         killed  626  (other shards hang until the test timeout)
-//   M27  rhp/v2/transport.go      readMessage takes the nonce from offset 1                     killed   41
-//   (M19 is the proposed VerifyTag fix: with it TestKnownVerifyTag turns clean.)
+//	id   file                     mutant                                                        result    s
+//	M01  rhp/v4/encoding.go       ReplenishAccountsRequest.maxLen drops +sizeofSignature        killed  343  (max object: read fails)
+//	M02  rhp/v4/encoding.go       FreeSectorsRequest.maxLen 32*batch -> 4*batch (0.16.1 bug)    killed  164
+//	M03  rhp/v4/transport.go      ReadResponse error branch: d.SetErr(r) removed                killed   40
+//	M04  rhp/v4/transport.go      withDecoder: N: maxLen -> 1<<40 (no limit)                    killed  337  (over-limit object read; hostile stream)
+//	M05  rhp/v2/transport.go      VerifyTag: tag comparison skipped                             killed   52
+//	M06  rhp/v2/transport.go      readMessage: no setErr on AEAD failure                        killed   52  (session not closed)
+//	M07  gateway/transport.go     validateHeader: unique-ID check removed                       killed  103
+//	M08  gateway/transport.go     validateHeader: genesis check removed                         killed   55
+//	M09  rhp/v4/validation.go     FundAccounts: len > Max -> len >= Max                         killed   56  (max batch rejected)
+//	M10  rhp/v4/validation.go     AppendSectors: > Max -> > Max+1                               killed   61  (batch+1 accepted)
+//	M11  rhp/v3/transport.go      readObject: maxLen += minMessageSize removed                  killed   45
+//	M12  rhp/v2/transport.go      NewRenterTransport: host signature not verified               killed   50
+//	M13  gateway/encoding.go      SendHeaders.maxResponseLen 80 -> 48 bytes per header          killed   61
+//	M14  rhp/v4/transport.go      ReadResponse limit: RPCError.maxLen()+o.maxLen() -> o.maxLen() killed   36
+//	M15  rhp/v2/transport.go      RawResponse: msgSize > maxLen check removed                   killed   56
+//	M16  rhp/v2/transport.go      readMessage: msgSize > maxLen -> > maxLen+1                   survived     equivalent: LimitedReader(8+maxLen) still refuses the extra byte
+//	M17  rhp/v4/encoding.go       AttachPoolsRequest.maxLen drops the 8-byte slice prefix       killed  102
+//	M18  gateway/encoding.go      SendV2Blocks.maxRequestLen drops the Max field                killed  102
+//	M20  rhp/v4/transport.go      WriteResponse never sets the error flag                       killed   22
+//	M21  rhp/v4/validation.go     FreeSectors: > Max -> >= Max                                  killed   34
+//	M22  rhp/v4/validation.go     ReplenishAccounts: > Max -> > 2*Max                           killed   36
+//	M23  rhp/v4/encoding.go       SectorRootsResponse encodes Roots before Proof                killed   37
+//	M24  rhp/v2/transport.go      RawResponse counts the tag as message body                    killed   43  (exact deadlock detection; timed out before it existed)
+//	M25  gateway/encoding.go      SendTransactions.maxRequestLen 100 -> 99 hashes               killed   54
+//	M26  rhp/v3/transport.go      readSub never cleared                                         killed  626  (other shards hang until the test timeout)
+//	M27  rhp/v2/transport.go      readMessage takes the nonce from offset 1                     killed   41
+//	(M19 is the proposed VerifyTag fix: with it TestKnownVerifyTag turns clean.)
 package c19
 
 import (
